@@ -308,7 +308,10 @@ def ps_plain_cases():
             "args": st.sampled_from([b" -Command ", b" ", b" -nop -c ", b" -File "]),
             "tail": body_tail,
             "kind": st.sampled_from(["dquote", "squote", "forloop", "start", "unterminated-d", "unterminated-s", "unterminated-for", "bare-offset"]),
-            "suffix": st.sampled_from([b" rest", b"", b"\nmore"]),
+            "suffix": st.sampled_from([b" rest", b"", b"\nmore", b", 0)", b")", b") do x", b"; y = 'z'", b' & "w"']),
+            # what stands before the opening quote (never ends in an opening parenthesis for a single quote: that is the
+            # FOR-loop clause; earlier complete strings are allowed, the nearest quote is still the opening one)
+            "lead": st.sampled_from([None, None, b"Shell(", b"(", b"x=", b'say "hi"; run ', b"a('b') + ", b"", b"WScript.Run ( "]),
         }
     )
 
@@ -320,13 +323,18 @@ def check_ps_plain(case) -> Outcome:
     body = case["token"] + case["args"] + case["tail"]
     k = case["kind"]
     suffix = case["suffix"]
+    lead = case.get("lead")
     if k == "dquote":
-        pre, text = b'run "', b'run "' + body + b'"' + suffix
-        a, b = 5, 5 + len(body)
+        pre = (b"run " if lead is None else lead) + b'"'
+        text = pre + body + b'"' + suffix
+        a, b = len(pre), len(pre) + len(body)
         exp_body = body
     elif k == "squote":
-        pre, text = b"iex '", b"iex '" + body + b"'" + suffix
-        a, b = 5, 5 + len(body)
+        if lead is not None and lead.rstrip(b" ").endswith(b"("):
+            lead = lead + b"x, "  # ('...') would be the FOR-loop clause
+        pre = (b"iex " if lead is None else lead) + b"'"
+        text = pre + body + b"'" + suffix
+        a, b = len(pre), len(pre) + len(body)
         exp_body = body
     elif k == "forloop":
         pre = b"for /f %a in ('"
